@@ -59,6 +59,7 @@ type VC struct {
 	resultTerms []Term
 	strLits  map[string]Term
 	sentinels []string
+	sentinelsP []string
 }
 
 func NewVC(ctx *Ctx, fn *ssa.Function, c *FuncContract, fullName string) *VC {
@@ -209,11 +210,18 @@ func (vc *VC) ghostVar(st *State, gv *GhostVar) (Term, types.Type, error) {
 	env := &SpecEnv{vc: vc, pkg: vc.ctx.typesPkg(gv.PkgPath)}
 	var ty types.Type
 	var srt Sort = SInt
-	switch gv.Type {
-	case "bool":
+	switch {
+	case gv.Ty != nil:
+		ty = gv.Ty
+		s2, err := vc.tt.SortOf(gv.Ty)
+		if err != nil {
+			return Term{}, nil, err
+		}
+		srt = s2
+	case gv.Type == "bool":
 		srt = SBool
 		ty = types.Typ[types.Bool]
-	case "mathint":
+	case gv.Type == "mathint":
 	default:
 		t, err := env.resolveTypeName(gv.Type)
 		if err != nil {
@@ -421,6 +429,14 @@ func (vc *VC) rangeAssumption(v Term, t types.Type, alloc Term) Term {
 		c := And(Lt(Rid(v), alloc))
 		c = And(c, Implies(Eq(Rid(v), IntLit(0)), Eq(Roff(v), IntLit(0))))
 		c = And(c, Implies(Neq(Rid(v), IntLit(0)), Eq(App(SInt, "dyn", v), IntLit(int64(vc.tt.TID(u.Elem()))))))
+		if _, isStruct := u.Elem().Underlying().(*types.Struct); isStruct {
+			if _, opq := vc.tt.isOpaque(u.Elem()); !opq {
+				// struct pointers that flow into the function (parameters, loads, call results) are
+				// assumed to point to whole allocations, not into the middle of another object
+				c = And(c, Eq(Roff(v), IntLit(0)))
+				vc.assume("struct pointers entering a function (parameters, loaded or returned values) point to whole allocations: no partial overlap between objects of different struct types")
+			}
+		}
 		return c
 	case *types.Map, *types.Chan:
 		return And(Lt(Rid(v), alloc), Ge(Rid(v), IntLit(0)), Eq(Roff(v), IntLit(0)))
